@@ -466,3 +466,8 @@ def run(prog: Program, res: Result) -> None:  # noqa: PLR0912, PLR0915
             res.ok("C06.R8", f"{m8.file}:{m8.node.lineno} Template.{nm}", what8, "except RecursionError: raise ContextDepthError(...)")
         else:
             res.fail("C06.R8", file=m8.file, line=m8.node.lineno, qualname=f"Template.{nm}", construct=f"Template.{nm} lets RecursionError through", message=f"Template.{nm} does not convert RecursionError: mutually recursive partials whose bodies nest a few block tags (about six) exhaust the interpreter's stack before context_depth_limit (30) is reached and the render dies with RecursionError instead of a depth error", what=what8)
+
+    res.rule("C06.R9", "a limit that is not exceeded never changes what is rendered: the loop stack and scope pushes of RenderContext's context managers are undone on every exit (try/finally) - a loop left by StopRender or an error that stays on context.loops multiplies every later loop by its length (shared with C01.R6 / C07.R1)")
+    from checks.shared import check_context_manager_pairing
+
+    check_context_manager_pairing(prog, res, "C06.R9")
